@@ -301,6 +301,38 @@ Definition step_count {E} (tr : list (Z * bool * E)) : Z := zlen (step_times tr)
 Definition rate_limited (speed : Z) (times : list Z) : Prop :=
   forall l1 t1 l2 t2, times = l1 ++ t1 :: l2 -> In t2 l2 -> 0 < t1 -> speed <= t2 - t1.
 
+(* the property's own schedule, written without any reference to the frame code: which ticks of a
+   history are steps.  [last] = time of the latest step so far (0: none yet), [budget] = steps left
+   ([endless] = looping: the budget is never spent).  A tick is a step iff steps are left and the
+   tick is not early: speed <= 0, or the clock was not running at the latest step (last <= 0), or
+   now - last >= speed.  A LATE tick moves [last] to its own time, not to last + speed: the ticks
+   that follow it are measured from the late one (no catching up). *)
+Fixpoint due_flags (speed : Z) (endless : bool) (last budget : Z) (nows : list Z) : list bool :=
+  match nows with
+  | [] => []
+  | now :: rest =>
+      let due := (0 <? budget) && negb ((0 <? speed) && (0 <? last) && (now - last <? speed)) in
+      due :: due_flags speed endless (if due then now else last)
+                       (if due && negb endless then budget - 1 else budget) rest
+  end.
+
+(* the step flags of a run *)
+Definition step_flags {E} (tr : list (Z * bool * E)) : list bool := map (fun x => snd (fst x)) tr.
+
+(* the time of the latest step of a run ([d]: none) *)
+Definition last_step_time {E} (d : Z) (tr : list (Z * bool * E)) : Z := last (step_times tr) d.
+
+(* a never-ending animation skips a tick only because it is early: every tick that is not a step
+   is closer than [speed] to the latest step before it, which happened with the clock running
+   ([last] = time of that step) *)
+Fixpoint no_step_lost {E} (speed last : Z) (tr : list (Z * bool * E)) : Prop :=
+  match tr with
+  | [] => True
+  | (now, b, _) :: rest =>
+      (b = false -> 0 < speed /\ 0 < last /\ now - last < speed) /\
+      no_step_lost speed (if b then now else last) rest
+  end.
+
 Definition hno_delay (evs : list hev) : Prop := forall ms, ~ In (HDelay ms) evs.
 (* every buffer assignment replaces the animation's row by exactly [cols] cells *)
 Definition hin_row (cols row : Z) (evs : list hev) : Prop :=
